@@ -42,8 +42,12 @@ type Ticker = time.Ticker
 func Virtual(t time.Time) {
 	mu.Lock()
 	defer mu.Unlock()
-	virtual, now, timers = true, t, nil
+	virtual, now, timers, AutoTick = true, t, nil, 0
 }
+
+// AutoTick, when positive, makes every reading of the virtual clock advance it by that much, so that two
+// readings are never equal (as with a real clock); timers still fire only on Set/Advance. Reset by Virtual.
+var AutoTick time.Duration
 
 // Real switches back to the OS clock.
 func Real() { mu.Lock(); virtual = false; timers = nil; mu.Unlock() }
@@ -57,11 +61,13 @@ func Now() time.Time {
 	}
 	if vsched.S != nil {
 		Reads++
+		now = now.Add(AutoTick)
 		return now
 	}
 	mu.Lock()
 	defer mu.Unlock()
 	Reads++
+	now = now.Add(AutoTick)
 	return now
 }
 
